@@ -4,6 +4,10 @@ import MpVerif.C20.ModelGraph
 
 The producer of the records that `ModelGraph.lean` validates, mirroring the call sites:
 
+* `ProblemFlattener::ExportCommonExpr / ExportObj / ExportAlgCon / ExportLogCon(i)` in the loops of `ConvertStandardItems`
+  (item `i` = number of items of that kind exported so far)                          (`Ev.nlDefVar`, `Ev.nlObj`, `Ev.nlCon logical`)
+* `FlatModel::AddObjective` → `ExportObjective(num_objs()-1, …)`; in-place rewrite of a flat objective (conic
+  reformulation)                                                                                (`Ev.addObj`, `Ev.setObj`)
 * `FlatModel::AddVar__basic / AddVars__basic` → `ExportVars(new index …)`                     (`Ev.addVar`)
 * bound/type updates of a flat variable (no export until the push)                             (`Ev.setVar`)
 * `ConstraintKeeper<…>::AddConstraint` → `ExportConstraint(cons_.size()-1, …)`                 (`Ev.store ty`)
@@ -48,6 +52,10 @@ structure XState where
   created : List NodeRef := []                -- every `NodeRange` handed out by `Select`/`Add` (except on `dest_cons(g)`)
   finished : Bool := false
   rejected : Nat := 0
+  nlObjs : Nat := 0                           -- NL objectives exported so far
+  nlCons : List Bool := []                    -- NL constraints exported so far (true = logical)
+  nlDefs : Nat := 0                           -- NL common expressions exported so far
+  objs : List ObjInfo := []                   -- flat objectives (current structure)
 
 inductive Ev where
   | addVar (fromNl : Bool) (info : VarInfo)
@@ -56,6 +64,11 @@ inductive Ev where
   | bridge (ty : Str) (i : Nat)
   | unuse (ty : Str) (i : Nat)
   | addItems (node : Str) (n : Nat)
+  | nlObj
+  | nlCon (logical : Bool)
+  | nlDefVar
+  | addObj (info : ObjInfo)
+  | setObj (i : Nat) (info : ObjInfo)
   | link (lty : Str) (entry : Nat) (src dst : List NodeRef)
   | finish
 
@@ -108,9 +121,14 @@ def covered (cfg : Cfg) (s : XState) (r : NodeRef) : Bool :=
 
 def reject (s : XState) : XState := { s with rejected := s.rejected + 1 }
 
+/-- `PushObjectivesTo`: `ExportObjective(i, obj)` for every flat objective -/
+def objRecs : Nat → List ObjInfo → List Rec
+  | _, [] => []
+  | i, o :: rest => Rec.obj i o :: objRecs (i + 1) rest
+
 /-- the records `PushModelTo` appends -/
 def finishRecs (cfg : Cfg) (s : XState) : List Rec :=
-  varRecs 0 s.vars ++ ((allFinish cfg s.cons cfg.types).1 ++ cfg.types.map (fun ty => Rec.conGroup ty (cfg.grp ty)))
+  varRecs 0 s.vars ++ (objRecs 0 s.objs ++ ((allFinish cfg s.cons cfg.types).1 ++ cfg.types.map (fun ty => Rec.conGroup ty (cfg.grp ty))))
 
 def finishState (cfg : Cfg) (s : XState) : XState :=
   { s with out := s.out ++ finishRecs cfg s, delivered := (allFinish cfg s.cons cfg.types).2, finished := true }
@@ -151,6 +169,16 @@ def xev (cfg : Cfg) (s : XState) : Ev → XState
   | .addItems node n =>
     if s.finished || !cfg.addNodes.contains node || n = 0 then reject s
     else addItemsState s node n
+  | .nlObj =>
+    if s.finished then reject s else { s with out := s.out ++ [Rec.nlObj s.nlObjs], nlObjs := s.nlObjs + 1 }
+  | .nlCon l =>
+    if s.finished then reject s else { s with out := s.out ++ [Rec.nlCon s.nlCons.length l], nlCons := s.nlCons ++ [l] }
+  | .nlDefVar =>
+    if s.finished then reject s else { s with out := s.out ++ [Rec.nlDefVar s.nlDefs], nlDefs := s.nlDefs + 1 }
+  | .addObj info =>
+    if s.finished then reject s else { s with out := s.out ++ [Rec.obj s.objs.length info], objs := s.objs ++ [info] }
+  | .setObj i info =>
+    if s.finished || !decide (i < s.objs.length) then reject s else { s with objs := setAt s.objs i info }
   | .link lty e src dst =>
     if src.all (covered cfg s) && dst.all (covered cfg s) then { s with out := s.out ++ [Rec.link lty e src dst] }
     else reject s
